@@ -103,6 +103,8 @@ func init() {
 				treeRejectionsRule(P, R, "C11.i", "show", "the verification call tree")
 				treeRejectionsRule(P, R, "C11.i", "prove", "the proving call tree")
 			}},
+		Rule{ID: "C11.j", Explain: "aliasing discipline: verification and proof construction leave the non-revocation proof, the witness and the accumulator unchanged - no function mutates in place a big.Int it reached through revocation.Proof / revocation.Witness / revocation.Accumulator (math/big mutators write their receiver), except the tabled merge/refresh functions.",
+			Run: func(P *Program, R *Report) { inPlaceDisciplineRule(P, R, "C11.j", "revocation.Proof", "revocation.Witness", "revocation.Accumulator") }},
 		Rule{ID: "C11.g", Explain: "determinism: on the verifier path no loop over a map returns a value that depends on which qualifying key was met first. revocationAttrIndex does (known finding K2).",
 			Run: func(P *Program, R *Report) { mapOrderVerdictRule(P, R) }},
 	)
